@@ -337,12 +337,21 @@ fn channel_id_clause(o: &mut Outcome, seed: u64) {
     if mk(&mr, &cr, pk, &ma, &ca) != base {
         o.violate("channel-id-not-deterministic", "ChannelId::new", "identical inputs give different ids".into());
     }
+    // every id computed for a different input tuple must be different from every other one (not
+    // only from the base): a derivation that remembers anything between calls would otherwise hide
+    let mut all_ids: std::collections::BTreeMap<[u8; 32], String> = std::collections::BTreeMap::new();
+    all_ids.insert(base, "base".to_string());
     let mut differ = |o: &mut Outcome, name: &str, id: [u8; 32]| {
         o.bump("fault.substitution.channel-id-input");
         o.events += 1;
         if id == base {
             o.violate("channel-id-ignores-input", &format!("ChannelId::new/{}", name), format!("changing only {} leaves the channel id unchanged", name));
+        } else if let Some(prev) = all_ids.get(&id) {
+            if !prev.starts_with(name) {
+                o.violate("channel-id-collision", &format!("ChannelId::new/{}", name.split(':').next().unwrap_or(name)), format!("two different input tuples ({} and {}) give the same channel id", prev, name));
+            }
         }
+        all_ids.entry(id).or_insert_with(|| name.to_string());
     };
     for i in 0..32 {
         let mut x = mr.clone();
@@ -403,6 +412,10 @@ fn channel_id_clause(o: &mut Outcome, seed: u64) {
             let name = format!("public-key:{}", strip_idx(&t.atoms[i].path));
             differ(o, &name, mk(&mr, &cr, &pk2, &ma, &ca));
         }
+    }
+    // determinism independent of call order: the base inputs give the base id again
+    if mk(&mr, &cr, pk, &ma, &ca) != base {
+        o.violate("channel-id-not-deterministic", "ChannelId::new", "the same inputs give another id after other ids were derived in between".into());
     }
 }
 
